@@ -168,7 +168,7 @@ def generate(flexdir, src, cfg, workdir, name, san=True, cc_extra=()):
         raise GenError("flex rc=%d" % p.returncode, p.stderr, p.returncode)
     ctext = open(cpath, errors="replace").read()
     defs = detect_defs(ctext)
-    cc = ["g++" if c["flavour"] == "cxx" else "gcc", "-O0", "-w", "-g"]
+    cc = ["g++" if c["flavour"] == "cxx" else "gcc", "-O0", "-w", "-g", "-D_GNU_SOURCE"]
     if san: cc += ["-fsanitize=address,undefined", "-fno-sanitize-recover=undefined"]
     cc += ["-D" + d for d in defs] + ["-I", flexdir] + list(cc_extra) + ["-o", exe, cpath]
     q = subprocess.run(cc, stdout=subprocess.PIPE, stderr=subprocess.STDOUT, text=True, errors="replace", timeout=300)
